@@ -12,6 +12,8 @@ import (
 	"encoding/hex"
 	"encoding/json"
 	"fmt"
+	"io"
+	"sort"
 	"strconv"
 	"strings"
 
@@ -19,6 +21,7 @@ import (
 	"github.com/parquet-go/parquet-go/encoding/thrift"
 	"github.com/parquet-go/parquet-go/format"
 
+	"verif/harness/c02/refcodec"
 	"verif/harness/core"
 	"verif/harness/gen"
 )
@@ -31,15 +34,76 @@ type c02Case struct {
 	// options, 2: with the other page version / codec and a 300 byte page buffer, 3: with independently drawn options;
 	// 4: never written as a file: the rows go to parquet.Buffer row groups (one per Flush segment of the history),
 	// which are written through WriteRowGroup with independently drawn options
+	// 5: as 4, and the file so written is re-opened and its row groups are written once more through WriteRowGroup
+	// with the options of the generated case (the row groups of a file carry the sorting columns of its footer)
 	Copy   int    `json:"copy"`
 	Layout bool   `json:"layout,omitempty"` // also compare the file with the model writer of File/Layout.v
 	Shape  *shape `json:"shape,omitempty"`  // schema / value dimensions beyond the shared generator (shapes.go)
+	// copy 4 and 5: the parquet.Buffer row groups are configured with these sorting columns and sorted before they are
+	// handed to WriteRowGroup; the rows "written" are then the rows in the order the sorted buffers present them
+	Sort []sortKey `json:"sort,omitempty"`
+	// the writers are configured with the same sorting columns (SortingWriterConfig) instead of taking them from the row groups
+	WriterSorts bool `json:"writer_sorts,omitempty"`
 }
 
-func expected(b *gen.Built, from, to int) (reps, defs, vals [][]string) {
+// sortKey is one sorting column: the index of a leaf that has no repeated ancestor.
+type sortKey struct {
+	Col        int  `json:"col"`
+	Desc       bool `json:"desc,omitempty"`
+	NullsFirst bool `json:"nulls_first,omitempty"`
+}
+
+// flatLeaves returns the paths of the leaves that hold one value per row (no repeated node on the path), by column index.
+func flatLeaves(root *gen.Node) map[int][]string {
+	out := map[int][]string{}
+	col := 0
+	var walk func(n *gen.Node, path []string, flat bool)
+	walk = func(n *gen.Node, path []string, flat bool) {
+		if n.Name != "root" || len(path) > 0 {
+			path = append(append([]string(nil), path...), n.Name)
+		}
+		flat = flat && n.Rep != gen.Rpt && n.Logical == ""
+		if n.Leaf != "" {
+			if flat {
+				out[col] = path
+			}
+			col++
+			return
+		}
+		for _, f := range n.Fields {
+			walk(f, path, flat)
+		}
+	}
+	for _, f := range root.Fields {
+		walk(f, nil, true)
+	}
+	return out
+}
+
+func sortingColumns(b *gen.Built, keys []sortKey) []parquet.SortingColumn {
+	flat := flatLeaves(b.Root)
+	var cols []parquet.SortingColumn
+	for _, k := range keys {
+		path, ok := flat[k.Col]
+		if !ok {
+			continue
+		}
+		sc := parquet.Ascending(path...)
+		if k.Desc {
+			sc = parquet.Descending(path...)
+		}
+		if k.NullsFirst {
+			sc = parquet.NullsFirst(sc)
+		}
+		cols = append(cols, sc)
+	}
+	return cols
+}
+
+func expected(b *gen.Built, rows []parquet.Row, from, to int) (reps, defs, vals [][]string) {
 	n := len(b.Root.Leaves())
 	reps, defs, vals = make([][]string, n), make([][]string, n), make([][]string, n)
-	for _, row := range b.Rows[from:to] {
+	for _, row := range rows[from:to] {
 		for _, v := range row {
 			c := v.Column()
 			reps[c] = append(reps[c], fmt.Sprintf("%x", v.RepetitionLevel()))
@@ -59,17 +123,34 @@ func joinOr(l []string) string {
 	return strings.Join(l, ",")
 }
 
-func writeFile(b *gen.Built, cs c02Case) ([]byte, error) {
+// writeFile returns the bytes of the file and the rows it was given, in the order it was given them.
+func writeFile(b *gen.Built, cs c02Case) ([]byte, []parquet.Row, error) {
 	var buf bytes.Buffer
 	var groups []parquet.RowGroup
-	if cs.Copy == 4 {
+	written := b.Rows
+	sorting := sortingColumns(b, cs.Sort)
+	writerOptions := func(o gen.Options) []parquet.WriterOption {
+		opts := append([]parquet.WriterOption{b.Schema}, o.WriterOptions(b.Root)...)
+		if cs.WriterSorts && len(sorting) > 0 {
+			opts = append(opts, parquet.SortingWriterConfig(parquet.SortingColumns(sorting...)))
+		}
+		return opts
+	}
+	if cs.Copy >= 4 {
+		newBuffer := func() *parquet.Buffer {
+			if len(sorting) > 0 {
+				return parquet.NewBuffer(b.Schema, parquet.SortingRowGroupConfig(parquet.SortingColumns(sorting...)))
+			}
+			return parquet.NewBuffer(b.Schema)
+		}
+		var buffers []*parquet.Buffer
 		i := 0
-		cur := parquet.NewBuffer(b.Schema)
+		cur := newBuffer()
 		for _, h := range b.History {
 			if h < 0 {
 				if cur.NumRows() > 0 {
-					groups = append(groups, cur)
-					cur = parquet.NewBuffer(b.Schema)
+					buffers = append(buffers, cur)
+					cur = newBuffer()
 				}
 				continue
 			}
@@ -78,38 +159,169 @@ func writeFile(b *gen.Built, cs c02Case) ([]byte, error) {
 				rows[j] = b.Rows[i+j].Clone()
 			}
 			if _, err := cur.WriteRows(rows); err != nil {
-				return nil, fmt.Errorf("buffer write rows: %w", err)
+				return nil, nil, fmt.Errorf("buffer write rows: %w", err)
 			}
 			i += h
 		}
-		if cur.NumRows() > 0 || len(groups) == 0 {
-			groups = append(groups, cur)
+		if cur.NumRows() > 0 || len(buffers) == 0 {
+			buffers = append(buffers, cur)
+		}
+		if len(sorting) > 0 {
+			// what is written is what the sorted buffers present, in their order
+			written = nil
+			for _, bf := range buffers {
+				sort.Stable(bf)
+				rows := make([]parquet.Row, bf.NumRows())
+				rr := bf.Rows()
+				n := 0
+				for n < len(rows) {
+					k, err := rr.ReadRows(rows[n:])
+					n += k
+					if err != nil {
+						if err == io.EOF {
+							break
+						}
+						rr.Close()
+						return nil, nil, fmt.Errorf("reading the sorted buffer: %w", err)
+					}
+				}
+				rr.Close()
+				if n != len(rows) {
+					return nil, nil, fmt.Errorf("sorted buffer presents %d of its %d rows", n, len(rows))
+				}
+				for _, r := range rows {
+					written = append(written, r.Clone())
+				}
+			}
+		}
+		for _, bf := range buffers {
+			groups = append(groups, bf)
 		}
 	} else {
 		if err := b.Write(&buf); err != nil {
-			return nil, err
+			return nil, nil, err
 		}
 		if cs.Copy == 0 {
-			return buf.Bytes(), nil
+			return buf.Bytes(), written, nil
 		}
 		f, err := parquet.OpenFile(bytes.NewReader(buf.Bytes()), int64(buf.Len()))
 		if err != nil {
-			return nil, fmt.Errorf("reopen: %w", err)
+			return nil, nil, fmt.Errorf("reopen: %w", err)
 		}
 		groups = f.RowGroups()
 	}
-	opts := copyOptions(b, cs)
+	stages := []gen.Options{copyOptions(b, cs)}
+	if cs.Copy == 5 {
+		first := cs
+		first.Copy = 4
+		stages = []gen.Options{copyOptions(b, first), copyOptions(b, cs)}
+	}
 	var out bytes.Buffer
-	w := parquet.NewGenericWriter[any](&out, append([]parquet.WriterOption{b.Schema}, opts.WriterOptions(b.Root)...)...)
-	for _, rg := range groups {
-		if _, err := w.WriteRowGroup(rg); err != nil {
-			return nil, fmt.Errorf("WriteRowGroup: %w", err)
+	for si, opts := range stages {
+		out = bytes.Buffer{}
+		w := parquet.NewGenericWriter[any](&out, writerOptions(opts)...)
+		for _, rg := range groups {
+			if _, err := w.WriteRowGroup(rg); err != nil {
+				return nil, nil, fmt.Errorf("WriteRowGroup: %w", err)
+			}
+		}
+		if err := w.Close(); err != nil {
+			return nil, nil, fmt.Errorf("close copy: %w", err)
+		}
+		if si+1 < len(stages) {
+			f, err := parquet.OpenFile(bytes.NewReader(out.Bytes()), int64(out.Len()))
+			if err != nil {
+				return nil, nil, fmt.Errorf("reopen: %w", err)
+			}
+			groups = f.RowGroups()
 		}
 	}
-	if err := w.Close(); err != nil {
-		return nil, fmt.Errorf("close copy: %w", err)
+	return out.Bytes(), written, nil
+}
+
+// ---- compressed sections: the graph of the external decompressor on this file ----
+//
+// The Gallina decoder decodes UNCOMPRESSED and SNAPPY itself; for the other codecs it is given,
+// for every compressed section of the file, what the reference implementation of the codec
+// (refcodec: libzstd, zlib, libbrotlidec, liblz4) makes of those bytes.  The sections are
+// found by walking the chunks with the library's thrift decoder; a section the walk misses
+// is one the decoder cannot decode, which is reported.
+func sectionsOf(data []byte) string {
+	if len(data) < 12 {
+		return "_"
 	}
-	return out.Bytes(), nil
+	flen := int64(uint32(data[len(data)-8]) | uint32(data[len(data)-7])<<8 | uint32(data[len(data)-6])<<16 | uint32(data[len(data)-5])<<24)
+	footer, ok := sliceOf(data, int64(len(data))-8-flen, flen)
+	if !ok {
+		return "_"
+	}
+	md := new(format.FileMetaData)
+	if err := thrift.Unmarshal(new(thrift.CompactProtocol), footer, md); err != nil {
+		return "_"
+	}
+	seen := map[string]bool{}
+	var toks []string
+	for _, g := range md.RowGroups {
+		for _, cc := range g.Columns {
+			m := cc.MetaData
+			codec := int(m.Codec)
+			if !refcodec.Known(codec) {
+				continue
+			}
+			start := m.DataPageOffset
+			if m.DictionaryPageOffset > 0 && m.DictionaryPageOffset < start {
+				start = m.DictionaryPageOffset
+			}
+			end := start + m.TotalCompressedSize
+			for pos := start; pos < end; {
+				win, ok := sliceOf(data, pos, end-pos)
+				if !ok {
+					break
+				}
+				h, hlen, err := decodeHeader(win)
+				if err != nil || h.CompressedPageSize < 0 || int64(hlen)+int64(h.CompressedPageSize) > end-pos {
+					break
+				}
+				section := win[hlen : hlen+int(h.CompressedPageSize)]
+				hint := int(h.UncompressedPageSize)
+				compressed := true
+				if h.Type == format.DataPageV2 && h.DataPageHeaderV2.Valid {
+					v2 := h.DataPageHeaderV2.V
+					levels := int(v2.RepetitionLevelsByteLength) + int(v2.DefinitionLevelsByteLength)
+					if levels < 0 || levels > len(section) {
+						levels = len(section)
+					}
+					section = section[levels:]
+					hint -= levels
+					if v2.IsCompressed.Valid && !v2.IsCompressed.V {
+						compressed = false
+					}
+				}
+				pos += int64(hlen) + int64(h.CompressedPageSize)
+				if !compressed {
+					continue
+				}
+				key := fmt.Sprintf("%x:x%s", codec, hex.EncodeToString(section))
+				if seen[key] {
+					continue
+				}
+				seen[key] = true
+				if hint < 0 {
+					hint = 0
+				}
+				if content, ok := refcodec.Decode(codec, section, hint); ok {
+					dims.sections[codec]++
+					if len(content) == 0 {
+						dims.emptySections[codec]++
+					}
+					toks = append(toks, key+":x"+hex.EncodeToString(content))
+				} else {
+					toks = append(toks, key+":!")
+				}
+			}
+		}
+	}
+	return joinSep(toks, ",")
 }
 
 func check(c *core.Ctx, cs c02Case) (nontrivial bool, bucket string) {
@@ -122,7 +334,14 @@ func check(c *core.Ctx, cs c02Case) (nontrivial bool, bucket string) {
 	if cs.Shape != nil {
 		bucket = cs.Shape.Kind + "/" + bucket
 	}
+	if len(cs.Sort) > 0 {
+		bucket = "sorted/" + bucket
+		if cs.WriterSorts {
+			bucket += "/writer-sorting-config"
+		}
+	}
 	var data []byte
+	var rows []parquet.Row // the rows the file was given, in the order it was given them
 	var werr error
 	p := func() (p string) {
 		defer func() {
@@ -130,7 +349,7 @@ func check(c *core.Ctx, cs c02Case) (nontrivial bool, bucket string) {
 				p = fmt.Sprint(r)
 			}
 		}()
-		data, werr = writeFile(b, cs)
+		data, rows, werr = writeFile(b, cs)
 		return ""
 	}()
 	if p != "" {
@@ -139,6 +358,22 @@ func check(c *core.Ctx, cs c02Case) (nontrivial bool, bucket string) {
 	}
 	if werr != nil {
 		return false, "rejected:" + core.Trunc(werr.Error(), 50)
+	}
+	if len(cs.Sort) > 0 {
+		// the sorted buffers present the rows they were given, each once
+		count := map[string]int{}
+		for _, r := range b.Rows {
+			count[gen.CanonRow(r)]++
+		}
+		for _, r := range rows {
+			count[gen.CanonRow(r)]--
+		}
+		for k, n := range count {
+			if n != 0 {
+				c.Violation("sorted-buffer-rows-differ", fmt.Sprintf("the sorted parquet.Buffer row groups do not present the rows they were given (row %s: %+d); schema %s", core.Trunc(k, 120), -n, b.Root.Text()), cs)
+				return true, bucket
+			}
+		}
 	}
 	if !c.HasOracle() {
 		return len(b.Rows) >= 2, bucket
@@ -151,7 +386,18 @@ func check(c *core.Ctx, cs c02Case) (nontrivial bool, bucket string) {
 			return false, "not-decoded:footer-above-128kB"
 		}
 	}
-	ans := c.Ask("c02.verify x" + hex.EncodeToString(data))
+	ans := c.Ask("c02.verify x" + hex.EncodeToString(data) + " " + sectionsOf(data))
+	if strings.HasPrefix(ans, "UNPARSEABLE:") {
+		c.Violation("undecodable-compressed-section", fmt.Sprintf("a page cannot be decompressed by a reader built on the reference implementation of the codec: %s; schema %s options %+v", strings.ReplaceAll(ans[len("UNPARSEABLE:"):], "_", " "), b.Root.Text(), wopts), cs)
+		return true, bucket
+	}
+	if ans == "ERR stack_overflow" {
+		// limit of the extracted decoder, not of the format or of the file: its recursion depth grows with the longest
+		// page / byte string list (native stack); reached by rows of 20000 byte strings in the thorough tier.  The file
+		// is counted apart and not decoded, as the files with very long footers are.
+		dims.stackOverflows++
+		return false, "not-decoded:decoder-stack-overflow"
+	}
 	if ans == "UNPARSEABLE" || strings.HasPrefix(ans, "ERR") {
 		c.Violation("spec-decoder-rejects", fmt.Sprintf("the specification decoder cannot parse the file (%s); schema %s options %+v", ans, b.Root.Text(), wopts), cs)
 		return true, bucket
@@ -171,11 +417,21 @@ func check(c *core.Ctx, cs c02Case) (nontrivial bool, bucket string) {
 		var nrows int
 		fmt.Sscanf(hdr[0], "%d", &nrows)
 		to := from + nrows
-		if to > len(b.Rows) {
-			c.Violation("row-count", fmt.Sprintf("row group %d: rows %d..%d exceed the %d rows written", gi, from, to, len(b.Rows)), cs)
+		if to > len(rows) {
+			c.Violation("row-count", fmt.Sprintf("row group %d: rows %d..%d exceed the %d rows written", gi, from, to, len(rows)), cs)
 			return true, bucket
 		}
-		reps, defs, vals := expected(b, from, to)
+		reps, defs, vals := expected(b, rows, from, to)
+		if len(cs.Sort) > 0 && cs.Sort[0].Col < len(defs) {
+			dims.sortedGroups++
+			d := defs[cs.Sort[0].Col]
+			for _, x := range d {
+				if x != d[0] {
+					dims.sortedMixed++
+					break
+				}
+			}
+		}
 		chunks := strings.Split(hdr[1], ";")
 		if len(chunks) != len(reps) {
 			c.Violation("column-count", fmt.Sprintf("row group %d has %d column chunks, schema has %d leaves", gi, len(chunks), len(reps)), cs)
@@ -205,8 +461,8 @@ func check(c *core.Ctx, cs c02Case) (nontrivial bool, bucket string) {
 		}
 		from = to
 	}
-	if from != len(b.Rows) {
-		c.Violation("row-count", fmt.Sprintf("the file holds %d rows, %d were written", from, len(b.Rows)), cs)
+	if from != len(rows) {
+		c.Violation("row-count", fmt.Sprintf("the file holds %d rows, %d were written", from, len(rows)), cs)
 		return true, bucket
 	}
 	if cs.Layout {
@@ -439,9 +695,14 @@ type dimensions struct {
 	longRows           int    // rows of a column chunk holding more than 1024 values
 	mixedEncodings     int    // column chunks whose data pages use more than one encoding (dictionary fallback)
 	chunks             int
+	sections           map[int]int // distinct compressed sections handed to the reference decoders, by codec
+	emptySections      map[int]int // of which: sections whose content is empty (all-null dictionaries and v2 data sections)
+	sortedGroups       int         // row groups written from a sorted source
+	sortedMixed        int         // of which: the first sorting column holds nulls and non-null values
+	stackOverflows     int         // files the extracted decoder could not decode within its native stack
 }
 
-var dims dimensions
+var dims = dimensions{sections: map[int]int{}, emptySections: map[int]int{}}
 
 func bitWidth(max int) int {
 	w := 0
@@ -565,10 +826,20 @@ func runCase(c *core.Ctx, cs c02Case, sample bool) {
 }
 
 func run(c *core.Ctx) {
-	c.Res.Rule = "files written from generated schemas / value trees / options / Write-Flush histories (see C01), directly (copy0), re-written through Writer.WriteRowGroup from the row groups of the written file with equal (copy1), opposite (copy2: other page version and codec, 300 byte page buffer) or independently drawn options (copy3), or never written directly: rows put in parquet.Buffer row groups handed to WriteRowGroup (copy4) (verbatim copy, column-wise re-encode and row paths); codecs UNCOMPRESSED and SNAPPY (the codecs the Gallina decoder implements). Besides the shared generator (nesting depth <= 3, lists <= 24 elements; DictionaryMaxBytes 16..415 in a quarter of the files, so dictionary -> PLAIN fallback inside a chunk occurs) two families of shapes (harness/c02/shapes.go): deep = a spine of nested optional/repeated/required groups with side leaves, the maximum definition level of the deepest column sweeping the level bit widths 1..8 in turn (maximum level in [2^(w-1), 2^w-1], up to 255), repetition levels none / few / any width up to w / width w, null and list-length probabilities scaled to the depth so that levels vary inside groups of 8; long = one repeated field (repeated leaf, repeated group, LIST) whose lists hold up to 300..6000 values (20000 in the thorough tier; lengths spread over the orders of magnitude and around the powers of two) in a third of the rows, next to short rows, with page buffers from 64 bytes. The note of the run lists the bit widths, row lengths and mixed-encoding chunks actually reached. Each file's raw bytes go to the extracted specification decoder, which must (1) parse them, (2) find every claimed offset, size, count, checksum, encoding list, encoding_stats entry ((page type, encoding) counts against the page headers present) and row boundary (v2 pages, and every data page of a chunk that has an offset index, start with repetition level 0) consistent with the bytes (discrepancy codes), (3) return, per row group and column, exactly the repetition levels, definition levels and values that were written. (4) Layout: the page structure observed in the file (raw page headers and bodies found by walking each chunk with the library's thrift decoder, rows per data page as counted by the specification decoder, bloom filter / column index sections, and the footer for the fields that are not offsets, sizes or counts) is given to the model writer File/Layout.v (offset accounting of writer.go; C02_layout_sound_*: its recorded offsets and sizes provably describe its bytes), which must reproduce the library's file byte for byte; a differing offset / size / count of the metadata is the property failing (layout:<field>), any other byte difference a model mismatch; the bucket suffix says whether the decidable hypothesis file_ok of the layout theorems held for the file (footers above 24 kB are left out in the quick tier: the Gallina thrift reader is quadratic; files whose footer exceeds 128 kB are not decoded at all, bucket not-decoded:*, the extracted decoder's recursion depth grows with the footer length). Non-trivial = at least 2 rows; distinct by the JSON of the case."
+	c.Res.Rule = "files written from generated schemas / value trees / options / Write-Flush histories (see C01), directly (copy0), re-written through Writer.WriteRowGroup from the row groups of the written file with equal (copy1), opposite (copy2: other page version and codec, 300 byte page buffer) or independently drawn options (copy3), or never written directly: rows put in parquet.Buffer row groups handed to WriteRowGroup (copy4) (verbatim copy, column-wise re-encode and row paths); codecs: half of the files draw the file codec and the per-column codecs from UNCOMPRESSED and SNAPPY (decoded in Gallina), the other half from all six (GZIP, BROTLI, ZSTD, LZ4_RAW sections are decoded by the reference C implementations of the codecs, harness/c02/refcodec, which instantiate the decompressor parameter of the Gallina decoder and accept only a complete well-formed stream: a compressed section of zero bytes is not one, class undecodable-compressed-section); null bias 0..7 tenths, and every optional field null in a tenth of the files (all-null chunks: empty dictionary pages and empty v2 data sections). Sorted sources: parquet.Buffer row groups configured with one or two sorting columns (leaves holding one value per row; ascending/descending x nulls first/last), sorted, and written through WriteRowGroup by a writer without a sorting configuration (three quarters) or with the same one, directly (copy4) or once more from the file so written (copy5); the rows written are then the rows as the sorted buffers present them (checked to be the rows they were given), and the decoder checks the sorting_columns each row group declares: column indexes, and nulls of the first sorting column before / after its non-null values as nulls_first says (discrepancy codes sorting_column_idx, sorting_nulls_placement; value order is C05's). Besides the shared generator (nesting depth <= 3, lists <= 24 elements; DictionaryMaxBytes 16..415 in a quarter of the files, so dictionary -> PLAIN fallback inside a chunk occurs) two families of shapes (harness/c02/shapes.go): deep = a spine of nested optional/repeated/required groups with side leaves, the maximum definition level of the deepest column sweeping the level bit widths 1..8 in turn (maximum level in [2^(w-1), 2^w-1], up to 255), repetition levels none / few / any width up to w / width w, null and list-length probabilities scaled to the depth so that levels vary inside groups of 8; long = one repeated field (repeated leaf, repeated group, LIST) whose lists hold up to 300..6000 values (20000 in the thorough tier; lengths spread over the orders of magnitude and around the powers of two) in a third of the rows, next to short rows, with page buffers from 64 bytes. The note of the run lists the bit widths, row lengths and mixed-encoding chunks actually reached. Each file's raw bytes go to the extracted specification decoder, which must (1) parse them, (2) find every claimed offset, size, count, checksum, encoding list, encoding_stats entry ((page type, encoding) counts against the page headers present) and row boundary (v2 pages, and every data page of a chunk that has an offset index, start with repetition level 0) consistent with the bytes (discrepancy codes), (3) return, per row group and column, exactly the repetition levels, definition levels and values that were written. (4) Layout: the page structure observed in the file (raw page headers and bodies found by walking each chunk with the library's thrift decoder, rows per data page as counted by the specification decoder, bloom filter / column index sections, and the footer for the fields that are not offsets, sizes or counts) is given to the model writer File/Layout.v (offset accounting of writer.go; C02_layout_sound_*: its recorded offsets and sizes provably describe its bytes), which must reproduce the library's file byte for byte; a differing offset / size / count of the metadata is the property failing (layout:<field>), any other byte difference a model mismatch; the bucket suffix says whether the decidable hypothesis file_ok of the layout theorems held for the file (footers above 24 kB are left out in the quick tier: the Gallina thrift reader is quadratic; files whose footer exceeds 128 kB are not decoded at all, bucket not-decoded:*, the extracted decoder's recursion depth grows with the footer length). Non-trivial = at least 2 rows; distinct by the JSON of the case."
+	// codecs: half of the files draw the file codec and the column codecs from the two codecs the Gallina decoder
+	// implements, the other half from all six (GZIP, BROTLI, ZSTD, LZ4_RAW through the reference decoders);
+	// null bias 10 = every optional field null (column chunks, dictionaries and v2 data sections holding no value)
+	codecs := func() []string {
+		if c.Rng.Intn(2) == 0 {
+			return []string{"none", "snappy"}
+		}
+		return []string{"none", "snappy", "gzip", "brotli", "zstd", "lz4"}
+	}
+	nullBias := func() int { return []int{0, 1, 2, 3, 4, 5, 6, 7, 7, 10}[c.Rng.Intn(10)] }
 	n := c.N(250, 4000)
 	for i := 0; i < n; i++ {
-		cs := c02Case{Gen: gen.Case{Seed: c.Seed*999983 + int64(i), NRows: []int{0, 1, 5, 40, 130, 300}[c.Rng.Intn(6)], MaxDepth: 1 + c.Rng.Intn(3), MaxFields: 1 + c.Rng.Intn(5), Codecs: []string{"none", "snappy"}, NullBias: c.Rng.Intn(8)}}
+		cs := c02Case{Gen: gen.Case{Seed: c.Seed*999983 + int64(i), NRows: []int{0, 1, 5, 40, 130, 300}[c.Rng.Intn(6)], MaxDepth: 1 + c.Rng.Intn(3), MaxFields: 1 + c.Rng.Intn(5), Codecs: codecs(), NullBias: nullBias()}}
 		switch c.Rng.Intn(8) {
 		case 0:
 			cs.Copy = 1
@@ -620,7 +891,7 @@ func run(c *core.Ctx) {
 		if w >= 7 {
 			nrows = []int{1, 5, 40}
 		}
-		cs := c02Case{Gen: gen.Case{Seed: c.Seed*1000003 + int64(i), NRows: nrows[c.Rng.Intn(len(nrows))], Codecs: []string{"none", "snappy"}, NullBias: c.Rng.Intn(8)},
+		cs := c02Case{Gen: gen.Case{Seed: c.Seed*1000003 + int64(i), NRows: nrows[c.Rng.Intn(len(nrows))], Codecs: codecs(), NullBias: c.Rng.Intn(8)},
 			Shape: sh, Copy: copyOf([5]int{4, 1, 1, 1, 1}), Layout: true}
 		runCase(c, cs, i < 1)
 	}
@@ -628,12 +899,60 @@ func run(c *core.Ctx) {
 	// and through every WriteRowGroup path
 	for i, n := 0, c.N(32, 200); i < n; i++ {
 		sh := &shape{Kind: "long", MaxLen: []int{300, 1100, 2100, 2100, 4200, c.N(6000, 20000)}[c.Rng.Intn(6)]}
-		cs := c02Case{Gen: gen.Case{Seed: c.Seed*1000033 + int64(i), NRows: []int{1, 3, 8, 20}[c.Rng.Intn(4)], MaxDepth: 1, MaxFields: 2, Codecs: []string{"none", "snappy"}, NullBias: c.Rng.Intn(6)},
+		cs := c02Case{Gen: gen.Case{Seed: c.Seed*1000033 + int64(i), NRows: []int{1, 3, 8, 20}[c.Rng.Intn(4)], MaxDepth: 1, MaxFields: 2, Codecs: codecs(), NullBias: c.Rng.Intn(6)},
 			Shape: sh, Copy: copyOf([5]int{2, 1, 2, 2, 1}), Layout: true}
+		runCase(c, cs, i < 1)
+	}
+	// sorted sources: parquet.Buffer row groups configured with one or two sorting columns (leaves holding one value
+	// per row; ascending / descending x nulls first / last), sorted, and handed to WriteRowGroup of a writer that has
+	// no sorting configuration of its own (it takes the declaration from the row group) or the same one; directly
+	// (copy 4) or once more from the file so written (copy 5: file row groups carrying the footer's sorting columns)
+	for i, n := 0, c.N(40, 400); i < n; i++ {
+		cs := c02Case{Gen: gen.Case{Seed: c.Seed*1000037 + int64(i), NRows: []int{1, 5, 40, 130}[c.Rng.Intn(4)], MaxDepth: 1 + c.Rng.Intn(2), MaxFields: 2 + c.Rng.Intn(4), Codecs: codecs(), NullBias: nullBias()},
+			Copy: 4 + c.Rng.Intn(2), Layout: true, WriterSorts: c.Rng.Intn(4) == 0}
+		root := build(cs).Root
+		flat := flatLeaves(root)
+		var cols, optional []int
+		for col := range root.Leaves() {
+			if path, ok := flat[col]; ok {
+				cols = append(cols, col)
+				// a leaf that can be null: optional itself or below an optional group
+				at, opt := root, false
+				for _, name := range path {
+					for _, f := range at.Fields {
+						if f.Name == name {
+							at = f
+							break
+						}
+					}
+					opt = opt || at.Rep == gen.Opt
+				}
+				if opt {
+					optional = append(optional, col)
+				}
+			}
+		}
+		if len(cols) == 0 {
+			c.Case("sorted/no-leaf-with-one-value-per-row", fmt.Sprint(cs.Gen.Seed), false)
+			continue
+		}
+		first := cols[c.Rng.Intn(len(cols))]
+		if len(optional) > 0 && c.Rng.Intn(4) != 0 {
+			first = optional[c.Rng.Intn(len(optional))]
+		}
+		cs.Sort = []sortKey{{Col: first, Desc: c.Rng.Intn(2) == 0, NullsFirst: c.Rng.Intn(2) == 0}}
+		if second := cols[c.Rng.Intn(len(cols))]; second != first && c.Rng.Intn(2) == 0 {
+			cs.Sort = append(cs.Sort, sortKey{Col: second, Desc: c.Rng.Intn(2) == 0, NullsFirst: c.Rng.Intn(2) == 0})
+		}
 		runCase(c, cs, i < 1)
 	}
 	c.Note("dimensions reached by the %d column chunks decoded and compared: definition levels varying within a chunk by bit width 1..8: %v; repetition levels: %v; longest row of one column: %d values, %d rows above 1024 values; %d chunks whose data pages use more than one encoding (dictionary fallback)",
 		dims.chunks, dims.defWidth[1:], dims.repWidth[1:], dims.longestRow, dims.longRows, dims.mixedEncodings)
+	c.Note("compressed sections decoded by the reference implementations (distinct sections; codec numbers of parquet.thrift: 2 GZIP, 4 BROTLI, 6 ZSTD, 7 LZ4_RAW): %v, of which with empty content: %v; row groups written from sorted sources: %d, of which %d whose first sorting column holds nulls and non-null values",
+		dims.sections, dims.emptySections, dims.sortedGroups, dims.sortedMixed)
+	if dims.stackOverflows > 0 {
+		c.Note("%d evaluations (shrinking probes included) were not decoded: the extracted decoder exhausted its native stack (bucket not-decoded:decoder-stack-overflow)", dims.stackOverflows)
+	}
 	// thrift: decode(encode) on the footers is exercised by every file; additionally the
 	// re-encoding of every decoded footer must reproduce the bytes Go wrote
 	for i := 0; i < c.N(40, 400); i++ {
